@@ -59,6 +59,10 @@ def add_optional_parts(rng, doc):
         ov["/word/glossary/unknownPart.dat"] = "application/octet-stream"
         rels.append({"type": "urn:example:unknown-relationship", "target": "glossary/unknownPart.dat", "rid": "rId905"})
         feats.append("unknown_part")
+    if rng.random() < 0.4:
+        # an external relationship (what every hyperlink in the text leaves in document.xml.rels); no part behind it
+        rels.append({"type": RT + "hyperlink", "target": "https://example.com/terms?id=7", "mode": "External", "rid": "rId906"})
+        feats.append("external_rel")
     doc["extra_members"], doc["extra_overrides"], doc["extra_rels"] = mem, ov, rels
     return feats
 
@@ -142,7 +146,14 @@ def work(case):
     doc = case["doc"]
     data = ooxml.write_docx(doc)
     data, dropped = drop_optional_parts(random.Random(case.get("drop_seed", 0)), data)
-    texts = engine_run.texts_of(data)
+    try:
+        texts = engine_run.texts_of(data)
+    except Exception as e:  # noqa  (a package the reader cannot even open: judged by the oracle, not a harness error)
+        import traceback
+
+        case = dict(case, op=case.get("op") or {"kind": "read"}, features=sorted(set(case.get("features", [])) | set(dropped)))
+        return {"err": f"reading the document raised {type(e).__name__}: {e}", "tb": traceback.format_exc()[-800:], "case": case,
+                "sample": {"op": "read", "optional_parts": []}}
     op = case.get("op")
     if op is None:
         kind = rng.choice(["edits", "edits", "edits", "actions", "replies", "accept_all", "mixed"])
@@ -188,7 +199,7 @@ def work(case):
     case = dict(case, op=op, features=sorted(set(case.get("features", [])) | set(dropped)))
     res["case"] = case
     res["sample"] = {"op": op["kind"], "optional_parts": [f for f in case["features"] if f in
-                     ("media", "ole", "footnotes", "custom_xml", "unknown_part") or f.startswith("no_")]}
+                     ("media", "ole", "footnotes", "custom_xml", "unknown_part", "external_rel") or f.startswith("no_")]}
     return res
 
 
@@ -260,6 +271,13 @@ def oracle(res):
     it = iter(pout)
     if not all(any(x == y for y in it) for x in pin):
         fails.append("paragraph properties (style / numbering / section break) of an original paragraph are not retained in order")
+    # the sections of a story are the section breaks its paragraphs carry: same breaks, same order, none added
+    sect = re.compile(r"<w:sectPr\b.*?</w:sectPr>|<w:sectPr\b[^>]*/>", re.S)
+    sin_ = [m for _, p in sem.all_paragraphs(res["in_doc"]) for m in sect.findall(p.get("ppr") or "")]
+    sout_ = [m for _, p in sem.all_paragraphs(res["out_doc"]) for m in sect.findall(p.get("ppr") or "")]
+    if sin_ != sout_:
+        fails.append(f"section breaks inside the story changed: {len(sin_)} section break(s) before, {len(sout_)} after "
+                     "(a paragraph created by the session carries a copy of a section break)")
     # (likewise a tracked row: w:ins / w:del inside the row properties is resolved by accept-all)
     rmark = re.compile(r"<w:(ins|del)\b[^>]*/>") if op["kind"] == "accept_all" else None
     rn = (lambda x: rmark.sub("", x or "")) if rmark else (lambda x: x)
